@@ -20,7 +20,7 @@ def opFigure (a : Args) : String :=
 def opProfile (a : Args) : String :=
   match a.nat? "L", a.nat? "n", a.nat? "d", a.rats? "xs" with
   | some L, some n, some d, some xs =>
-    "ok rows=" ++ ",".intercalate ((profileRows L n xs).map (fun r => toString r.1 ++ ":" ++ String.ofList (fmtF d r.2)))
+    "ok rows=" ++ ",".intercalate ((profileRows ((a.nat? "first").getD 1) L n xs).map (fun r => toString r.1 ++ ":" ++ String.ofList (fmtF d r.2)))
   | _, _, _, _ => "bad-args"
 
 /-- `figureg id p=<n> x=<rat>` -> Python's `.{p}g` text in its fixed-notation range -/
